@@ -288,6 +288,18 @@ def wire_rules(rep, mod, repo, leaf, roots, family):
             detail += ' [writer helper %s, reader helper %s]' % (relpath(repo, where), relpath(repo, rwhere))
         rep.inst('R-WIRE', fn, 'grammar', ok, where, detail, fact={'writer': tw, 'reader': tr})
 
+        # the archive object is touched only through the leaf transfers (no helper moves bytes behind the grammar's back)
+        by = []
+        for g in gw + gr:
+            for t in all_calls(g.state.tokens):
+                if t['name'].startswith('leaf:'):
+                    continue
+                if any(('arg', 0) in set(subterms(a)) for a in t['args'] if isinstance(a, tuple)):
+                    by.append(t)
+        rep.inst('R-WIRE', fn, 'archive-touched-only-by-leaf-transfers', not by, by[0]['where'] if by else where,
+                 None if not by else 'the archive object is handed to %s (%s) outside dump_data/load_data: bytes moved there are '
+                 'invisible to the other side' % (by[0]['name'], helper_chain(by[0])))
+
         # every count field is a 16 bit field on both sides, and the writer stores the size of the
         # container it then iterates / copies
         for side, gs in (('writer', gw), ('reader', gr)):
@@ -335,6 +347,16 @@ def wire_rules(rep, mod, repo, leaf, roots, family):
                                  helper_chain(bad[4])), fact=pl)
         if ok:
             layout_rule(rep, r, fn, gw, gr, where, names)
+
+
+def all_calls(toks):
+    for t in toks:
+        if t['k'] == 'call':
+            yield t
+        elif t['k'] == 'loop':
+            for (_c, body) in t['alts']:
+                for x in all_calls(body):
+                    yield x
 
 
 def all_loops(toks):
@@ -478,7 +500,8 @@ def counted_rules(rep, mod, repo):
         gs = extract(mod, repo, LEAF_A, f, 'w')
         ok = len(gs) == 1 and len(gs[0].items) == 1 and gs[0].items[0][0] == 'raw' and gs[0].items[0][1] == (2, {N0: 1}) \
             and [t['len'] for t in gs[0].raw_tokens][:1] == [C(2)]
-        rep.inst('R-COUNTED', label, 'writes-u16-n-then-n-bytes', ok, '%s:%d' % (f.file, f.line),
+        wh = gs[0].raw_tokens[0]['where'] if gs and gs[0].raw_tokens else '%s:%d' % (f.file, f.line)
+        rep.inst('R-COUNTED', label, 'writes-u16-n-then-n-bytes', ok, wh,
                  None if ok else 'a counted block must be written as u16 n followed by exactly n bytes; writer emits  %s'
                  % ' || '.join(g.text() for g in gs), fact=[g.text() for g in gs])
     for name, label, cap in (
@@ -502,6 +525,28 @@ def counted_rules(rep, mod, repo):
                      'u16 count w0/N0 it has just read), so the next value is decoded from the middle of this one'
                      % (conds, argnames(f, fmt_lin(tot)) if tot else '?'),
                      fact={'path': conds, 'consumed': fmt_lin(tot) if tot else None})
+            bufsz = ('ptr', ('arg', 1), field(mod, 'class.igris::buffer', 'sz'))
+            bufdat = ('ptr', ('arg', 1), field(mod, 'class.igris::buffer', 'buf'))
+            m1 = g.state.mem.get(('arg', 1), {})
+            if cap is None:
+                # settable buffer: a view of exactly the payload, taken before the cursor moves past it
+                ev = [t for t in g.state.tokens if t['k'] in ('call', 'skip')]
+                pt = [n for n, t in enumerate(ev) if t['k'] == 'call' and t['name'] == 'leaf:pointer']
+                sk = [n for n, t in enumerate(ev) if t['k'] == 'skip']
+                d, z = m1.get((bufdat[2], 8)), m1.get((bufsz[2], 8))
+                okv = len(pt) == 1 and len(sk) == 1 and pt[0] < sk[0] and d == ev[pt[0]]['result'] \
+                    and z is not None and g.nz.lin(z) == (0, {N0: 1})
+                rep.inst('R-COUNTED', label, 'view-is-the-payload', okv, w,
+                         None if okv else 'the settable buffer must become (pointer(), n) with pointer() taken before the '
+                         'payload is skipped; found data=%s size=%s' % (fmt_term(d) if d else '?', fmt_term(g.nz.norm(z)) if z else '?'))
+            if cap == 'bufsize':
+                copies = [t for t in g.raw_tokens if t['k'] == 'raw' and not is_const(t['len'])]
+                z = m1.get((bufsz[2], 8))
+                okv = len(copies) == 1 and z is not None and g.nz.lin(z) == g.nz.lin(copies[0]['len'])
+                rep.inst('R-COUNTED', label, 'buffer-shrinks-to-the-copied-length', okv, w,
+                         None if okv else argnames(f, 'when %s the writable buffer is left with size %s after %s bytes were copied'
+                                                   % (conds, fmt_term(g.nz.norm(z)) if z else '?',
+                                                      fmt_term(g.nz.norm(copies[0]['len'])) if copies else '?')))
             if cap is not None:
                 copies = [t for t in g.raw_tokens if t['k'] == 'raw' and not is_const(t['len'])]
                 okc = len(copies) == 1
@@ -712,7 +757,27 @@ def storage_rules(rep, mod, repo):
         cxx(mod, D, 'avail'): FnSpec(pre=['sz <= 2147483647'], post=[
             dict(name='remaining', then=['ret == sz - cursor', 'cursor_post == cursor'])]),
     }
-    it, run = run_contracts(rep, 'R-CLAMP', mod, [STOR], specs)
+    it = Interp(mod)
+    run = ContractRun(it, [STOR])
+    for fname, spec in specs.items():
+        run.run(fname, spec)
+    obs = summarize(it, run)
+    for o in obs:
+        fo = mod.fn(o['function'])
+        stack = o.get('call_stack') or []
+        if stack:
+            rf = mod.fn(stack[0].split('@')[0])
+            o['root'] = rf.qualname if rf is not None else stack[0].split('@')[0]
+            o['leaf'] = fo.qualname if fo is not None else o['function']
+            if o['root'] == o['leaf']:
+                o['function'] = o['root']
+        elif fo is not None and fo.srcname:
+            o['function'] = fo.qualname
+    rep.add_absint('R-CLAMP', obs)
+    a = rep.extra.setdefault('absint', {})
+    a['accesses_checked'] = a.get('accesses_checked', 0) + it.checked
+    a['accesses_without_known_extent'] = a.get('accesses_without_known_extent', 0) + it.unchecked
+    a['functions_interpreted'] = sorted(set(a.get('functions_interpreted', [])) | it.functions_seen)
     # constructor: cursor starts at 0 and the storage is the caller's buffer
     f = [x for x in mod.defined() if x.scope.startswith(D + '::') and x.srcname == 'deserialize_buffer_storage'
          and len(x.params) == 2]
@@ -784,6 +849,42 @@ def entry_rules_b(rep, mod, repo, roots):
                  None if ok else 'serialize(obj) must serialize obj once into a fresh string_storage and return its content')
 
 
+def entry_rules_b_reader(rep, mod, repo, roots):
+    S = 'class.igris::deserialize_buffer_storage'
+    offs = {x['name']: x['off'] for x in mod.flat_fields(S)}
+    for r in roots:
+        byval = [f for f in mod.defined() if f.scope.startswith('igris::deserializer<') and f.srcname.startswith('deserialize<')
+                 and f.name != r['r'].name and any(c.callee == r['r'].name for c in f.calls())]
+        callers = [f for f in mod.defined() if f.scope == 'igris::' and f.srcname.startswith('deserialize<')
+                   and any(c.callee in [b.name for b in byval] for c in f.calls())
+                   and f.params and tyname(f.params[-1]['ty'].get('elem', '')).startswith('class.std::__cxx11::basic_string')]
+        if len(callers) != 1:
+            continue
+        f = callers[0]
+        fn = '%s [%s]' % (r['label'], r['via'])
+        ex = Exec(mod, repo, LEAF_B, nt_funcs={r['r'].name: r['type']}, start=None)
+        res = ex.run(f, [('arg', n) for n in range(len(f.params))], St())
+        ok = len(res) == 1
+        det = None
+        if ok:
+            st, rv = res[0]
+            inarg = ('arg', len(f.params) - 1)
+            nts = [t for t in st.tokens if t['k'] == 'nt']
+            stor = None
+            for b, m in st.mem.items():
+                if b[0] == 'alloca' and m.get((offs['buf'], 8)) == ('call', 'data', inarg) and \
+                        m.get((offs['sz'], 8)) == ('size', inarg) and m.get((offs['cursor'], 8)) == C(0):
+                    stor = b
+            arch = any(b[0] == 'alloca' and stor is not None and m.get((0, 8)) == ('ptr', stor, 0) for b, m in st.mem.items())
+            ok = stor is not None and arch and len(nts) == 1 and len(grammar_tokens(st.tokens)) == 1
+            if not ok:
+                det = ('deserialize<T>(str) must wrap str.data()/str.size() in a deserialize_buffer_storage at cursor 0, bind the '
+                       'deserializer to it and decode once (storage over the input: %s, archive bound: %s, decodes: %d)'
+                       % (stor is not None, arch, len(nts)))
+        rep.inst('R-ENTRY', fn, 'deserialize<T>(str) decodes the bytes of str from its first byte', ok,
+                 '%s:%d' % (f.file, f.line), det)
+
+
 # --------------------------------------------------------------------------- main
 def run(rep, repo, tier):
     rep.explanation = (
@@ -829,14 +930,15 @@ def run(rep, repo, tier):
     wire_rules(rep, modb, repo, LEAF_B, rb, 'B')
     storage_rules(rep, modb, repo)
     entry_rules_b(rep, modb, repo, rb)
+    entry_rules_b_reader(rep, modb, repo, rb)
 
-    rep.floor('R-WIRE', 60)
+    rep.floor('R-WIRE', 100)
     rep.floor('R-COUNT16', 20)
     rep.floor('R-SIZEOF', 50)
     rep.floor('R-LAYOUT', 10)
-    rep.floor('R-COUNTED', 8)
+    rep.floor('R-COUNTED', 10)
     rep.floor('R-CURSOR', 11)
-    rep.floor('R-ENTRY', 30)
+    rep.floor('R-ENTRY', 60)
     rep.floor('R-CLAMP:bounds', 6)
     rep.floor('R-CLAMP:post', 6)
     rep.floor('R-CLAMP:invariant', 2)
